@@ -7,7 +7,7 @@ ASAN_QUICK = False      # the T2 components run on the release build in the quic
 
 
 def components():
-    return [comps_ht.HashFn(), comps_ht.HtScript(), comps_ht.DictScript()]
+    return [comps_ht.HashFn(), comps_ht.HtScript(), comps_ht.DictScript(), comps_ht.OwnDelta()]
 
 
 def oracles_():
@@ -49,7 +49,13 @@ MANIFEST = {
     "note": "NOT proved: heap behaviour of the rest of the library. Ownership of data-tree / schema / context memory (consumed "
             "inputs, outputs NULL on failure, subtree freeing, dictionary empty at ly_ctx_destroy) is only SEARCHED: the Ownership "
             "oracle runs random sequences of API calls including failing ones under AddressSanitizer + LeakSanitizer and compares "
-            "the context's dictionary size before/after and counts 'not freed' warnings. Oracle-level only (no Coq statement): the "
+            "the context's dictionary size before/after and counts 'not freed' warnings. A small ownership model (Own.v / "
+            "Properties_C17_own.v) states the rules the oracle checks - balance of store / dup / free / temporaries over the "
+            "dictionary finite map (C17_own_balance), exactness of free_single / free_siblings on chains, one reference per owned "
+            "string for a duplicate, neutral temporaries, with the seeded defect classes as refuted variants - and predicts the "
+            "dictionary delta 0 for every projected API script (C17_own_script_delta_zero, compared with the library by the T2 "
+            "component own-delta on the fixed catalogue scripts); which strings a given libyang call owns is NOT modelled. "
+            "Oracle-level only: the "
             "catalogue of calls that allocate-and-release temporaries (lyd_value_validate with/without context node for every type "
             "family - valid, invalid when stored, invalid when resolved -, lyd_value_compare, lyd_change_term/_canon/_bin, "
             "lyd_dup_meta_single, lyd_any_value_str, lyd_any_copy_value, merge / diff callbacks failing at every position) and of "
